@@ -293,6 +293,24 @@ class ActGen:
             else:
                 dur = r.choice([0, 5, 30]) if ok else r.choice([-10, 5])
                 self.emit(f"{name}.run_for({self.arg(dur)}, {self.arg(sp)})" if r.random() < 0.5 else f"{name}.run_for({self.arg(dur)}, speed={self.arg(sp)})")
+        if ok and r.random() < 0.15:
+            # an argument that reads the device's OWN state, which the command then changes: evaluated once, before the command acts
+            if kind != "rgb":
+                self.features.add("argument-reads-own-state:" + kind)
+            if kind == "led":
+                self.emit(f"{name}.set_brightness(255 - {name}.get_brightness())")
+            elif kind == "servo":
+                self.emit(f"{name}.write({info['lo'] + info['hi']} - {name}.read())")
+            elif kind == "motor":
+                start = r.choice([0.75, 0.25, 0.5, 1.0, -0.5])
+                self.emit(f"{name}.set_speed({start})")
+                form = r.choice(["ramp", "ramp", "set", "run_for"])
+                if form == "ramp":
+                    self.emit(f"{name}.ramp(-{name}.get_speed(), {r.choice([20, 40])})")
+                elif form == "set":
+                    self.emit(f"{name}.set_speed(-{name}.get_speed())")
+                else:
+                    self.emit(f"{name}.run_for({r.choice([5, 10])}, -{name}.get_speed())")
         self.getters(kind, name)
 
     def loop_varying(self):
